@@ -16,6 +16,85 @@ EXPLANATION = ("Decided (thin, stated plainly): the reduction table of any/all a
 LOGIC = "<ast::logical_expr::LogicalExpr as ast::Expr>::compile_with_compiler"
 
 
+def _reduction_kind(S, h, leaves):
+    """how the boolean values of parameter #1 are reduced on these result leaves: 'any over param#1', 'all over param#1'
+    or a description of what was found instead. Two shapes are read: the iterator adaptor (`.any(|v| v)`/`.all(|v| v)`
+    on the parameter) and the for-loop with an early return (`for v in it { if v { return true } } false` and its dual)."""
+    def over_param(node, frame):
+        b, _, _, ms = sem.provenance(S, node, frame)
+        return b is not None and b.kind == "param" and b.index == 1 and b.frame is S.root and \
+            all(m in ("into_iter", "iter", "<for>", "by_ref", "copied", "cloned") for m in ms)
+    if len(leaves) == 1:
+        t = sem.peel(leaves[0].node)
+        if t.get("k") == "MethodCall" and t["m"] in ("any", "all") and t.get("args"):
+            clo = closure_of(t["args"][0])
+            ident = bool(clo) and local_name(tail(clo["body"])) in pat_bindings({"k": "x", "params": clo["params"]})
+            if ident and over_param(t["recv"], leaves[0].frame):
+                return "%s over param#1" % t["m"]
+            return "%s with a non-identity test or over another value" % t["m"]
+        return "single leaf %s" % t.get("k")
+    if len(leaves) != 2:
+        return "%d result leaves" % len(leaves)
+    inl = [x for x in leaves if x.in_loop]
+    post = [x for x in leaves if not x.in_loop]
+    if len(inl) != 1 or len(post) != 1:
+        return "leaves in loop: %d, after: %d" % (len(inl), len(post))
+    b1, b2 = lit_value(inl[0].node), lit_value(post[0].node)
+    if not isinstance(b1, bool) or not isinstance(b2, bool):
+        return "non-literal results"
+
+    def elem_literals(lits, frame_ok=True):
+        out = []
+        for a, pol in lits:
+            if a.kind == "local":
+                b = S.lookup(sem.peel(a.node), a.frame)
+                if b is not None and b.kind == "loopvar" and over_param(a.node, a.frame):
+                    out.append(pol)
+                    continue
+                return None
+            if a.kind == "is":
+                v = S.resolve(a.scruts[0].node, a.scruts[0].frame)
+                n = sem.peel(v.node)
+                if "QuantifierOp" in norm(n.get("ty", "")) or sem.is_method(n, "next") is not None or \
+                        (n.get("k") == "Call" and norm(n.get("callee", "")).endswith("Iterator::next")):
+                    continue
+                return None
+            if a.kind == "forall":
+                continue
+            return None
+        return out
+    lits, ors = sem.literals(inl[0].pc)
+    cond = elem_literals(lits)
+    if ors or cond is None or len(cond) != 1:
+        return "early return under another condition than the element"
+    lits2, ors2 = sem.literals(post[0].pc)
+    fa = [a for a, pol in lits2 if a.kind == "forall" and pol]
+    if ors2 or elem_literals(lits2) != [] or len(fa) != 1 or not over_param(fa[0].l.node, fa[0].l.frame):
+        return "fall-through result not after a complete loop over param#1"
+    # the loop body is survived exactly when the early-return test fails
+    l3, o3 = sem.literals(((fa[0].r, True),))
+    c3 = elem_literals(l3)
+    if o3 or c3 != [not cond[0]]:
+        return "loop body left by something else than the early return"
+    if (b1, cond[0], b2) == (True, True, False):
+        return "any over param#1"
+    if (b1, cond[0], b2) == (False, False, True):
+        return "all over param#1"
+    return "early return %s when the element is %s, %s otherwise" % (b1, cond[0], b2)
+
+
+def _reduction_table(E, h):
+    S = sem.Sem(E, h)
+    UQ = sem.enum_universe(E, "ast::logical_expr::QuantifierOp")
+    pQ = lambda v: norm(v.node.get("ty", "")).replace("&", "").strip() in ("ast::logical_expr::QuantifierOp", "Self")
+    per = {}
+    for x in S.result_leaves():
+        for (v,) in sem.admitted_tuples(x.pc, [pQ], [UQ]):
+            per.setdefault(last_seg(v), []).append(x)
+    return {v: _reduction_kind(S, h, ls) for v, ls in per.items()}
+
+
+
 def rule_quant(E, R):
     rule = "R02-quant"
     fn = "ast::logical_expr::QuantifierOp::reduce_bool_iter"
@@ -23,17 +102,8 @@ def rule_quant(E, R):
     if not h:
         R.cannot(rule, fn, "anchor not found")
     else:
-        tbl = {}
-        for m in find_matches(h["body"], r"QuantifierOp$"):
-            for a in m["arms"]:
-                v = pat_variant(a["pat"])
-                t = tail(a["body"])
-                if v and t.get("k") == "MethodCall":
-                    clo = closure_of(t["args"][0]) if t.get("args") else None
-                    ident = bool(clo) and local_name(tail(clo["body"])) in pat_bindings({"k": "x", "params": clo["params"]})
-                    root, ch = chain(t)
-                    tbl[last_seg(v)] = (t["m"], ident, "param#1" if is_param(root, h, 1) else local_name(root), [x["m"] for x in ch[:-1]])
-        want = {"Any": ("any", True, "param#1", ["into_iter"]), "All": ("all", True, "param#1", ["into_iter"])}
+        tbl = _reduction_table(E, h)
+        want = {"Any": "any over param#1", "All": "all over param#1"}
         R.check(tbl == want, rule, fn, "any = exists, all = for-all over every element (so all of an empty result is true)", str(tbl), h["span"])
     fa = "ast::logical_expr::QuantifierOp::reduce_lhs_array"
     ha = E.hir(fa)
@@ -88,6 +158,42 @@ def rule_quant(E, R):
                     vec_names |= set(pat_bindings(q))
             ok = chain_verdict(ch) == "ok" and local_name(root) in vec_names
     R.check(ok, rule, LOGIC, "any/all of a mapped comparison reduces the whole element-wise result", where=h["span"])
+
+
+def rule_walk(E, R):
+    """iterator protocol of the [*] walk: None is the end of the walk for every consumer, so `next` may answer None only
+    when its stack of open containers is exhausted; while it is not, the only value it may hand out is Some(element)"""
+    rule = "R02-walk"
+    hs = E.hirs(r"MapEachIterator as core::iter::traits::iterator::Iterator>::next$")
+    if len(hs) != 1:
+        return R.cannot(rule, "MapEachIterator::next", "anchor not found (%d)" % len(hs))
+    h = hs[0]
+    fn = norm(h["path"])
+    S = sem.Sem(E, h)
+    leaves = S.result_leaves()
+    n_some = n_none = 0
+    for x in leaves:
+        head = sem.ctor_head(x.node)
+        if head == "Option::Some":
+            n_some += 1
+            b, _, _, ms = sem.provenance(S, x.node["args"][0], x.frame, fields=True)
+            ok = b is not None and b.name == "self" and "next" in ms and ".stack" in ms
+            R.check(ok, rule, fn, "the element handed out is the one the innermost open container yielded",
+                    "value derives from %s via %s" % (b.name if b else None, ms), x.node.get("sp", ""))
+        elif head == "Option::None":
+            n_none += 1
+            R.check(not x.in_loop, rule, fn, "None is answered only after the loop over the open containers has ended",
+                    "a `None` inside the loop ends the whole walk while containers are still open: later elements are lost",
+                    x.node.get("sp", ""))
+        else:
+            R.violation(rule, fn, "every answer is Some(element) or the final None",
+                        "an Option computed elsewhere is returned as the answer: when it is None the consumer stops although "
+                        "elements remain (an absent index/key on one element must only skip that element)", x.node.get("sp", ""))
+    user_breaks = [b for b in exprs(h["body"], "Break", into_closures=False) if not b.get("x")]
+    R.check(not user_breaks, rule, fn, "the loop is left only when the stack is empty (no break)", where=h["span"])
+    empties = [x for x in S.sites() if x.node.get("k") == "MethodCall" and x.node["m"] in ("is_empty", "len", "last_mut", "last", "pop") and
+               sem.provenance(S, x.node["recv"], x.frame, fields=True)[3][:1] == [".stack"]]
+    R.check(n_some >= 1 and n_none >= 1 and bool(empties), rule, fn, "the walk runs until the stack of open containers is empty", where=h["span"])
 
 
 def rule_trunc(E, R):
@@ -305,6 +411,7 @@ def run(F, R, tier):
     rule_quant(E, R)
     rule_trunc(E, R)
     rule_absent(E, R)
+    rule_walk(E, R)
     C04.rule_index(E, R)
     # R02-notvec is decided by R01-logic's `not on Vec` instance
     import C01
@@ -314,6 +421,6 @@ def run(F, R, tier):
         if "not on" in r.label or r.status == "cannot-decide":
             r.rule = "R02-notvec"
             R.results.append(r)
-    R.not_decided += ["MapEachIterator traversal (row-major order, flattening of several [*])",
+    R.not_decided += ["MapEachIterator traversal order (row-major, flattening of several [*]); R02-walk decides only its iterator protocol",
                       "agreement of the three compilation strategies (one / vec / iter)",
                       "get_nested / extract_nested folding beyond order and early stop", "IndexExpr::compile_with_compiler's three paths"]
